@@ -107,6 +107,7 @@ def key_chain(cl):
 
 
 KEYED = {}     # closure path -> True when it is a key-extraction closure (sort_by_key family)
+INDIRECT = {}  # (closure path, variant) -> comparator function the closure calls through a pointer for that sort order
 
 
 def memory_sort_closures(prog, rep, mname, adaptor):
@@ -116,8 +117,10 @@ def memory_sort_closures(prog, rep, mname, adaptor):
     rep.floor("memory-sort", "<MdkMemoryStorage as GroupStorage>::%s" % mname, len(fs), 1)
     if not fs:
         return out
-    f = fs[0]
-    for bb, s in f.stmts():
+    f0 = fs[0]
+    fam = prog.family(f0)
+    fam_paths = set(g.path for g in fam)
+    for f, bb, s in [(g, bb, s) for g in fam for bb, s in g.stmts()]:
         if s.get("k") != "closure" or s["closure"] not in prog.fns:
             continue
         cl = prog.fns[s["closure"]]
@@ -126,8 +129,26 @@ def memory_sort_closures(prog, rep, mname, adaptor):
         if not used:
             continue
         v = arm_variant(prog, f, bb, "MessageSortOrder")
-        out[v] = cl
         KEYED[cl.path] = used[0].name in KEY_ADAPTORS[adaptor]
+        if v is None:
+            # one closure for both orders, calling a comparator that was picked per sort order beforehand
+            # (`let cmp = match order { CreatedAtFirst => Message::display_order_cmp, .. }; v.sort_by(|a, b| cmp(b, a))`):
+            # the function item each arm puts into the captured pointer
+            picked = {}
+            for o in s.get("o", []):
+                if "p" not in o:
+                    continue
+                og = A.origins(prog, f, o["p"][0], scope=fam_paths, max_frames=3)
+                for hf, hbb, kc in og.consts:
+                    if isinstance(kc, dict) and kc.get("fn") in prog.fns:
+                        av = arm_variant(prog, hf, hbb, "MessageSortOrder")
+                        if av:
+                            picked[av] = kc["fn"]
+            for av, fnp in picked.items():
+                out[av] = cl
+                INDIRECT[(cl.path, av)] = fnp
+            continue
+        out[v] = cl
     return out
 
 
@@ -168,7 +189,8 @@ def clause_orders(prog, rep, sch, sites):
                           "memory %s key closure for %s yields %s; expected %s with sign %d (a missing last key leaves ties in arbitrary order)" % (adaptor, variant, m if m else tbl, canon, sign_want), cl.loc())
             elif cl:
                 try:
-                    tbl = cmpeval.table(prog, cl, {2: ("param", "A", 2), 3: ("param", "B", 3), 1: ("tuple", ())}, "A", "B")
+                    tbl = cmpeval.table(prog, cl, {2: ("param", "A", 2), 3: ("param", "B", 3), 1: ("tuple", ())}, "A", "B",
+                                        indirect_target=INDIRECT.get((cl.path, variant)))
                     m = cmpeval.match_chain(tbl)
                 except dtable.Undecided as e:
                     m = None
